@@ -153,6 +153,16 @@ Proof.
     assert (Hin : In c (srcs g xs)) by (apply InS; exists x; split; assumption). rewrite Gc in Hin. destruct Hin.
 Qed.
 
+(* ... and its valid range is the union (smallest lower, largest upper bound) of the ranges the sources give, folded in list order *)
+Theorem lib_seq_range a xs r :
+  Forall (fun x => NoDup (map fst x)) xs -> Forall (fun x => forall g c, lgetR x g = Some c -> NoDup (map fst (i_tab c))) xs ->
+  lupd_seq a xs = Some r -> forall g c, lgetR r g = Some c ->
+  i_range c = fold_left ruR (map i_range (srcs g xs)) (orange (lgetR a g)).
+Proof.
+  intros Nk Nt S g c Hc. pose proof (gfold_char _ _ _ (seq_group xs Nk a r S g) (srcs_tabs g xs Nt)) as G.
+  rewrite Hc in G. exact (proj2 G).
+Qed.
+
 (* whatever the order: two accepted merge sequences over permuted lists of libraries agree on every group's table and range *)
 Theorem lib_perm_order_free a xs ys r1 r2 : Permutation xs ys ->
   Forall (fun x => NoDup (map fst x)) xs -> Forall (fun x => forall g c, lgetR x g = Some c -> NoDup (map fst (i_tab c))) xs ->
